@@ -517,8 +517,9 @@ pub struct RunOutcome {
     pub updates: u32,
     pub eof_reads: u32,
     pub panic: Option<String>,
-    /// Notifications fired right after a quiescent point while the connection
-    /// was parked on the read side between queries or inside a header, with
+    /// Notifications fired right after a quiescent point, with nothing else
+    /// possibly waiting in the channel, while the connection was parked on the
+    /// read side between queries or inside a header, or blocked writing, with
     /// the sender and the connection alive: each of them must show up as a
     /// Serial Notify of its own.
     pub notifies_owed: usize,
@@ -642,6 +643,8 @@ pub fn run_schedule(
             }
         };
         let mut settled = false;
+        // a notification may still sit in the channel
+        let mut unconsumed = false;
         if schedule.settle_first {
             bound_hit |= !settle(&sock).await;
             idle_check(&sock);
@@ -659,8 +662,21 @@ pub fn run_schedule(
                 Step::Notify => {
                     if let Some(sender) = sender.as_mut() {
                         let pos = locate(&sock, labels);
-                        if was_settled && !pos.same_tick && matches!(pos.place, Place::Idle | Place::Header(_)) {
-                            owed += 1;
+                        if was_settled && !pos.same_tick && !unconsumed {
+                            match pos.place {
+                                // parked in `recv`: picked up at once
+                                Place::Idle | Place::Header(_) => owed += 1,
+                                // blocked writing: picked up when the server gets back to `recv`;
+                                // anything fired before that may be merged with it
+                                Place::MidResponse | Place::MidOtherPdu | Place::BlockedAtBoundary => {
+                                    owed += 1;
+                                    unconsumed = true;
+                                }
+                                Place::Payload(_) => unconsumed = true,
+                                _ => {}
+                            }
+                        } else if !matches!(pos.place, Place::Closed | Place::NotStarted) {
+                            unconsumed = true;
                         }
                         positions.push(pos);
                         sender.notify();
@@ -672,6 +688,11 @@ pub fn run_schedule(
                     bound_hit |= !settle(&sock).await;
                     idle_check(&sock);
                     settled = !bound_hit;
+                    let pos = locate(&sock, labels);
+                    if settled && !pos.same_tick && matches!(pos.place, Place::Idle | Place::Header(_)) {
+                        // back in `recv` with nothing to do: whatever was fired has been taken
+                        unconsumed = false;
+                    }
                 }
                 Step::Grant(n) => sock.grant(Some(n)),
                 Step::Unlimit => sock.grant(None),
